@@ -355,6 +355,7 @@ class FieldProjectionDetectorBase(PhasorDetector):
         del inv_permeability, inv_permittivity
         time_passed = time_step * self._config.time_step_duration
         static_scale = self._static_scale()
+        window_weight = self._window_at_time_step_arr[time_step]
 
         fields = jnp.concatenate((E, H), axis=0)
         phase_angles = self._angular_frequencies * time_passed
@@ -367,7 +368,7 @@ class FieldProjectionDetectorBase(PhasorDetector):
             face_slices: list[slice] = [slice(None), slice(None), slice(None), slice(None)]
             face_slices[axis + 1] = slice(0, 1) if direction == "-" else slice(self.grid_shape[axis] - 1, None)
             face_fields = fields[tuple(face_slices)]
-            new_phasors = face_fields * phasors * static_scale
+            new_phasors = face_fields * phasors * static_scale * window_weight
             state_key = _surface_state_key(surface)
             if self.inverse:
                 result = state[state_key] - new_phasors[None, ...]
